@@ -982,10 +982,12 @@ impl Vm {
                     self.push_quantity(-rhs);
                 }
                 Op::Factorial => {
+                    // The operand can carry a unit at run time although the type checker saw a
+                    // scalar (`(NaN m)!`: NaN is dimension-polymorphic): report an error.
                     let lhs = self
                         .pop_quantity()
                         .as_scalar()
-                        .expect("Expected factorial operand to be scalar")
+                        .map_err(|e| self.runtime_error(RuntimeErrorKind::QuantityError(e)))?
                         .to_f64();
 
                     let order = self.read_u16();
